@@ -32,7 +32,7 @@ def designated(n, m, modes):
     return acc
 
 
-def one(n, m, modes, n_trials, export=False, stale=None):
+def one(n, m, modes, n_trials, export=False, stale=None, n_workers=2):
     so.reset(fn=so.const_score)
     algs = tuple(so.OPT_CLASSES[i](so.ScriptConfig()) for i in range(n))
     tasks = tuple(so.task0(so.TASK_CLASSES[j]) for j in range(m))
@@ -46,7 +46,7 @@ def one(n, m, modes, n_trials, export=False, stale=None):
     valid = modes is None or all(x in MODES for x in modes)
     shapes = designated(n, m, modes)
     try:
-        mt = Multitask(algs, tasks, modes=modes, n_workers=2)
+        mt = Multitask(algs, tasks, modes=modes, n_workers=n_workers)
     except ValueError as e:
         if valid and shapes:
             out.append(('valid-modes-rejected', f"{type(e).__name__}: {str(e)[:80]}"))
@@ -153,6 +153,13 @@ def _work(args):
                 k += 1
                 for what, d in finds:
                     res.setdefault(what, (d, {'n': n, 'm': m, 'modes': list(modes) if modes else None, 'T': T}))
+                if T == trials[0] and (modes is None or len(modes) <= 4):
+                    # other worker counts (None = the optimizer's default, 1 = a pool of a single worker)
+                    for nw in (None, 1):
+                        for what, d in one(n, m, modes, T, n_workers=nw):
+                            res.setdefault(what + f'|n_workers={nw}', (d, {'n': n, 'm': m, 'modes': list(modes) if modes else None,
+                                                                          'T': T, 'n_workers': nw}))
+                        k += 1
                 if T == trials[0] and (modes is None or len(modes) <= 3):
                     for stale in ('thread', 'process'):
                         for what, d in one(n, m, modes, T, stale=stale):
@@ -194,7 +201,10 @@ def replay(case):
     pools.install()
     try:
         finds = one(case['n'], case['m'], tuple(case['modes']) if case['modes'] else None, case['T'],
-                    export=not case.get('stale'), stale=case.get('stale'))
+                    export=not case.get('stale') and 'n_workers' not in case, stale=case.get('stale'),
+                    n_workers=case.get('n_workers', 2))
+        if 'n_workers' in case:
+            finds = [(w + f"|n_workers={case['n_workers']}", d) for w, d in finds]
         if case.get('stale'):
             finds = [(w + '|instance-used-before-in-' + case['stale'], d) for w, d in finds]
     finally:
